@@ -74,7 +74,9 @@ impl ZoneCursor {
         let payload: HashMap<String, ScalarValue> = self
             .payload_fields
             .iter()
-            .map(|(k, v)| (k.clone(), v[idx].clone()))
+            // A column with no stored values for this zone (e.g. all-null optional field)
+            // yields an empty vector: treat the missing cell as null instead of panicking.
+            .map(|(k, v)| (k.clone(), v.get(idx).cloned().unwrap_or(ScalarValue::Null)))
             .collect();
 
         if tracing::enabled!(tracing::Level::TRACE) {
